@@ -28,8 +28,15 @@ fn quantile_candidates(s: &[f64], a: u64, b: u64, m: QuantileMethod) -> (Vec<f64
             QuantileMethod::MidPoint => (s[i] + s[j]) / 2.0,
         }
     };
-    if rem == 0 {
-        // exactly an integer index: the library's floating index may fall on either side (DESIGN 5.5)
+    if rem == 0 && b.is_power_of_two() {
+        // q = a/b is exactly representable and (n-1)q is exactly an integer, in real and in floating
+        // point arithmetic alike (also for 1-q): no rounding is involved, the quantile IS s[k] for
+        // every interpolation method. (DESIGN 5.5's either-neighbour tolerance is for indices that are
+        // only within rounding distance of an integer.)
+        (vec![s[fl]], true)
+    } else if rem == 0 {
+        // an integer index reached through a q that is not exactly representable: the floating index
+        // may fall on either side (DESIGN 5.5)
         let k = fl;
         let mut c = vec![s[k]];
         if k > 0 {
